@@ -8,7 +8,7 @@ from typing import Dict, List
 
 from ..framework import Check, SRC
 from ..defs_common import FAM, regen_or_report
-from ..defs_emit_common import (F, build_corpus, closure_case, closure_coq, closure_files, closure_model_ok, coq_ap, cz, effective_options, read_py,
+from ..defs_emit_common import (F, build_corpus, closure_case, cyclic_closures, closure_coq, closure_files, closure_model_ok, coq_ap, cz, effective_options, read_py,
                                 run_emit, EXC_CODE)
 
 THEOREMS = ["C16_combined", "C16_combined_closure", "C16_combined_exact", "C16_combined_refuted_alias_of_struct",
@@ -224,6 +224,7 @@ def extra_closures() -> List[dict]:
         ("msg", "M1", 1500, F(("s", "S1", ("lit", 2)), ("n", "char", ("ref", "MAX_NAME_LEN")), ("i", "MY_ID", None))),
         ("msg", "SG", 1401, None), ("msg", "RU", 1402, ("reuse", "M1")), ("reserved", [1600, (1602, 1604)])]),
         dict(path="inc/a.yaml", imports=[], items=[S0])], auto_pad=True, import_coredefs=True), coq=False))
+    out += cyclic_closures()        # import cycles: the combined file has no imports at all, the round trip must hold
     return out
 
 
@@ -277,6 +278,9 @@ def run(chk: Check):
                       import_coredefs=c["cl"].get("import_coredefs", False), tag=c["tag"])
         c1 = 0 if res["ok"] else EXC_CODE.get(res["exc"], 99)
         c2, same, equiv = 0, False, False
+        if c.get("expect") == "accept" and not res["ok"] and res["exc"] != "HANG":
+            chk.spec_failure("rejected-wellformed:" + c["tag"].split(":")[0] + ":" + str(res["exc"]),
+                             f"a well-formed closure ({c['tag']}) does not compile, no combined YAML: {res['exc']}: {res['msg'][:200]}", replay)
         if res["exc"] == "HANG":         # a compile that does not terminate (worker watchdog)
             chk.spec_failure("hang:" + str(res.get("hang") or "parse"), f"the compiler does not terminate on this closure: {res['msg'][:160]}", replay)
         if res["ok"]:
@@ -307,6 +311,17 @@ def run(chk: Check):
                             chk.spec_failure(f"determinism:{lang}:symlinked-dir",
                                              f"{lang} output differs between compiling the closure in its real directory and through a symlink "
                                              f"to that directory ({how}): " + _first_diff(txt, lk["outs"].get(lang)), replay)
+                # the output directory named in different ways
+                if det.get("outdirs_error"):
+                    chk.broken_obligation("harness could not set up the output directories of the determinism part", det["outdirs_error"])
+                for how, od in (det.get("outdirs") or {}).items():
+                    if od["exc"]:
+                        chk.spec_failure("determinism:outdir-fails", f"the same closure fails when compiled with {how}: {od['exc'][:160]}", replay)
+                        continue
+                    for lang, txt in res["outputs"].items():
+                        if od["outs"].get(lang) != txt:
+                            chk.spec_failure(f"determinism:{lang}:outdir",
+                                             f"{lang} output differs between an absolute -o and {how}: " + _first_diff(txt, od["outs"].get(lang)), replay)
                 fl = det.get("file_link")
                 if fl is not None:
                     if fl["exc"]:
@@ -378,11 +393,12 @@ def run(chk: Check):
     chk.cov["evaluations"] = len(corpus) + ndet_ok * 2 + 1
     chk.cov["traces_validated_against_impl"] = len(coq_cases) - len([b for b in bad if b >= 0])
     chk.cov["distinct_nontrivial"] = len(nontrivial)
-    chk.cov["rule"] = ("(a) determinism - NOT A PROOF, differential execution only: each selected closure compiled by pyrtma.compile.compile six "
+    chk.cov["rule"] = ("(a) determinism - NOT A PROOF, differential execution only: each selected closure compiled by pyrtma.compile.compile ten "
                        "times (in-process; in-process again after ANOTHER closure was compiled in between, from another closure location, cwd and "
                        "output dir; in a fresh interpreter with another PYTHONHASHSEED; through a symlink to the definition directory one level "
                        "deep with a relative path from the project directory; through such a symlink three levels deep with an absolute path from "
-                       "another cwd; through a symlink to the root file alone) and all five outputs compared byte for byte. "
+                       "another cwd; through a symlink to the root file alone; with a relative -o of one and of two components from two cwds, `-o .` from "
+                       "inside the output directory, and the default output directory) and all five outputs compared byte for byte. "
                        "(b) every corpus closure: combined YAML re-parsed by the real Parser with the options it carries; ids, hashes, sizes, "
                        "alignments, field tables compared with the first parse (entry for entry, and up to the position of the reserved "
                        "placeholders); Model/Emit.v (parse, combined_items, re-parse, theorem conditions) "
